@@ -71,14 +71,13 @@ NatOf(x) == (IF Len(x) >= 1 THEN x[1] ELSE 0) + (IF Len(x) >= 2 THEN x[2] * 6553
 
 IsZero(x) == \A i \in 1..Len(x) : x[i] = 0
 
-\* strip leading (most significant) zero limbs; compare
-RECURSIVE Trim(_)
-Trim(x) == IF x # <<>> /\ x[Len(x)] = 0 THEN Trim(SubSeq(x, 1, Len(x) - 1)) ELSE x
-
-RECURSIVE LessT(_, _)          \* on trimmed numbers of equal length: compare from the top limb
-LessT(x, y) == IF x = <<>> THEN FALSE
-               ELSE IF x[Len(x)] # y[Len(y)] THEN x[Len(x)] < y[Len(y)]
-               ELSE LessT(SubSeq(x, 1, Len(x) - 1), SubSeq(y, 1, Len(y) - 1))
+\* strip leading (most significant) zero limbs; compare.  (Not RECURSIVE on purpose: TLC evaluates a
+\* constant definition once and for all only if no recursive operator is involved in it, and the case
+\* grids of the replay modules are such constants.)
+TopIndex(S) == CHOOSE i \in S : \A j \in S : j <= i
+Trim(x) == LET nz == {i \in 1..Len(x) : x[i] # 0} IN IF nz = {} THEN <<>> ELSE SubSeq(x, 1, TopIndex(nz))
+\* on trimmed numbers of equal length: the top limb in which they differ decides
+LessT(x, y) == LET d == {i \in 1..Len(x) : x[i] # y[i]} IN IF d = {} THEN FALSE ELSE x[TopIndex(d)] < y[TopIndex(d)]
 Less(x, y) == LET a == Trim(x) b == Trim(y)
               IN IF Len(a) # Len(b) THEN Len(a) < Len(b) ELSE LessT(a, b)
 Leq(x, y) == ~Less(y, x)
